@@ -4,6 +4,7 @@
 package world
 
 import (
+	"verifsim/interp"
 	"verifsim/simfs"
 	"verifsim/simnet"
 	"verifsim/spec"
@@ -44,6 +45,9 @@ type Step struct {
 	Exclusive bool       `json:"exclusive,omitempty"`
 	Spec      *spec.Spec `json:"spec,omitempty"`
 	Args      []string   `json:"args,omitempty"`
+	// runargs: a Func whose rows render its arguments (C16).
+	ArgSpec *interp.ArgSpec `json:"argspec,omitempty"`
+	Variant string          `json:"variant,omitempty"` // args | slices | bad
 	// scan | discard
 	Of string `json:"of,omitempty"`
 	// kill
@@ -83,6 +87,8 @@ type Oracle struct {
 	Placement bool `json:"placement,omitempty"`
 	// CacheFiles: every published cache shard file decodes to exactly its shard's reference rows (C13).
 	CacheFiles bool `json:"cache_files,omitempty"`
+	// NoRepeat: no Worker.Run task and no Worker.Compile is sent twice (C16: no retries).
+	NoRepeat bool `json:"no_repeat,omitempty"`
 	// SiteCalls: report user-function call counts per site (and per shard for readers).
 	SiteCalls bool `json:"site_calls,omitempty"` // C05: key -> shard tables of writerfunc sites
 	// FaultsStop: liveness clause applies (all steps must return).
